@@ -52,9 +52,13 @@ func c06GLGadget(api frontend.API, in []frontend.Variable) []frontend.Variable {
 
 // c06QEGadget: the extension-field range check (both coordinates must be canonical);
 // the value under test sits in coordinate k, the other coordinate is a fixed canonical value.
-func c06QEGadget(k int) gadget.Fn {
+func c06QEGadget(k int, other ...uint64) gadget.Fn {
+	o := uint64(7)
+	if len(other) > 0 {
+		o = other[0]
+	}
 	return func(api frontend.API, in []frontend.Variable) []frontend.Variable {
-		e := gl.QuadraticExtensionVariable{gl.NewVariable(7), gl.NewVariable(7)}
+		e := gl.QuadraticExtensionVariable{gl.NewVariable(o), gl.NewVariable(o)}
 		e[k] = gl.NewVariable(in[0])
 		gl.New(api).RangeCheckQE(e)
 		return nil
@@ -471,6 +475,9 @@ func init() {
 						if exec == "engine" || mech == "commit" || !ctx.Quick {
 							add(exec, mech, "qe0", 0, env)
 							add(exec, mech, "qe1", 0, env)
+							// the other coordinate at p-1 (its high limb is all ones)
+							add(exec, mech, "qe0m", 0, env)
+							add(exec, mech, "qe1m", 0, env)
 						}
 						for _, n := range widthsFor(mech, exec) {
 							add(exec, mech, "bits", n, env)
@@ -585,13 +592,17 @@ func init() {
 					return o
 				}
 				exec, mech, gad, n := c.Str("exec"), c.Str("mech"), c.Str("gadget"), c.Int("n")
-				isGL := gad == "gl" || gad == "qe0" || gad == "qe1"
+				isGL := gad == "gl" || gad == "qe0" || gad == "qe1" || gad == "qe0m" || gad == "qe1m"
 				fn := gadget.Fn(c06GLGadget)
 				switch {
 				case gad == "qe0":
 					fn = c06QEGadget(0)
 				case gad == "qe1":
 					fn = c06QEGadget(1)
+				case gad == "qe0m":
+					fn = c06QEGadget(0, P-1)
+				case gad == "qe1m":
+					fn = c06QEGadget(1, P-1)
 				case gad == "dbl":
 					fn = c06DoubleGadget
 				case !isGL:
